@@ -74,6 +74,10 @@ theorem corr4_perm_events (n : ℕ) (evs evs' : List (List ℝ)) (h : evs.Perm e
     corr4 (evs.map (unitsEv n)) = corr4 (evs'.map (unitsEv n)) := by
   rw [corr4_eq, corr4_eq, (h.map _).sum_eq, (h.map _).sum_eq]
 
+theorem corr6_perm_events (n : ℕ) (evs evs' : List (List ℝ)) (h : evs.Perm evs') (h6 : ∀ φs ∈ evs, 6 ≤ φs.length) :
+    corr6 (evs.map (unitsEv n)) = corr6 (evs'.map (unitsEv n)) := by
+  rw [corr6_eq _ _ h6, corr6_eq _ _ (fun φs hφ => h6 φs (h.mem_iff.2 hφ)), (h.map _).sum_eq, (h.map _).sum_eq]
+
 /-! non-vacuity: a concrete rotated sample is a different input -/
 example : rot 1 [0, 2] = [0 + 1, 2 + 1] ∧ rot 1 [0, 2] ≠ [0, 2] := by
   constructor
